@@ -374,8 +374,59 @@ def ordering(ctx, facts):
             ctx.ok('C12.f', 'FPNum.compare:%s' % label, 'every feasible path returns %d' % expect)
 
 
+def float_paths(ctx, facts):
+    """C12.h: shape conditions of the float conversions that the exactness clauses of the statement need:
+    - FPNum.to_float keeps the sign of zero: the sign field is applied in a numeric type that has a signed zero (Decimal / float /
+      copysign), never as an integer factor or through Fraction;
+    - the exponent of a float is extracted exactly (comparison loops, frexp, bit fields), never through a floating logarithm, whose
+      rounding is off by one just below a power of two."""
+    from ..srcmap import norm
+    c = facts.cls('FPNum', HELPER, required=False)
+    tf = c.methods.get('to_float') if c is not None else None
+    if tf is None:
+        ctx.error('C12.h', 'anchor FPNum.to_float not found')
+    else:
+        bad = []
+        for n in ast.walk(tf):
+            if isinstance(n, ast.Name) and n.id == 'Fraction':
+                bad.append('the value goes through Fraction (no signed zero)')
+            if isinstance(n, ast.BinOp) and isinstance(n.op, ast.Mult):
+                for x, y in ((n.left, n.right), (n.right, n.left)):
+                    if isinstance(x, ast.Attribute) and x.attr == 's' and isinstance(x.value, ast.Name) and x.value.id == 'self':
+                        floaty = (isinstance(y, ast.Call) and norm(y.func) in ('float', 'Decimal', 'math.copysign', 'math.ldexp')) or norm(y) in ('math.inf', 'math.nan') \
+                            or (isinstance(y, ast.Constant) and isinstance(y.value, float))
+                        if not floaty and not isinstance(y, ast.Name):
+                            bad.append('the sign is applied as an integer factor: `%s`' % norm(n)[:50])
+        if bad:
+            ctx.violation('C12.h', 'FPNum.to_float:signed-zero', 'to_float() cannot return -0.0: %s' % sorted(set(bad))[0], '%s:FPNum.to_float' % HELPER,
+                          witness=dict(value='FPNum(-0.0), FPNum(0x80000000, "sp"): the platform encoding is -0.0, the helper returns +0.0'))
+        else:
+            ctx.ok('C12.h', 'FPNum.to_float:signed-zero', 'the sign field is applied in Decimal / float arithmetic (signed zero preserved)')
+    fh = facts.cls('FloatingPointHelper', HELPER, required=False)
+    n = 0
+    for k in ([fh] if fh is not None else []) + ([c] if c is not None else []):
+        for mn, m in k.methods.items():
+            logs = [norm(x)[:40] for x in ast.walk(m) if isinstance(x, ast.Call) and norm(x.func) in ('math.log2', 'math.log', 'math.log10', 'np.log2', 'numpy.log2')]
+            # only where the result feeds an exponent (floor / int / ceil of the logarithm)
+            expo = [norm(x)[:60] for x in ast.walk(m) if isinstance(x, ast.Call) and norm(x.func) in ('int', 'math.floor', 'math.ceil', 'round')
+                    and any(isinstance(y, ast.Call) and norm(y.func) in ('math.log2', 'math.log', 'math.log10') for y in ast.walk(x))]
+            n += 1
+            if expo:
+                ctx.violation('C12.h', '%s.%s:exponent-by-logarithm' % (k.name, mn), 'the binary exponent is taken from a floating logarithm (`%s`): log2 of a value a few ulp below 2**k rounds to k, '
+                              'so the exponent is one too large there' % expo[0], '%s:%s.%s' % (HELPER, k.name, mn),
+                              witness=dict(value='math.nextafter(2.0**k, 0) for large k; sys.float_info.max'))
+    if n:
+        if not any(v['rule'] == 'C12.h' and 'exponent-by-logarithm' in v['key'] for v in ctx.violations):
+            ctx.ok('C12.h', 'exact-exponent', '%d conversion methods: no binary exponent is derived from a floating logarithm' % n)
+
+
 def run(ctx, sm, facts):
     from ..leafrules import definite_failures
+    from .c14 import helper_clause
+    ctx.rule('C12.g', 'FixedPoint.add / sub / mult: extracted encoding function == exact arithmetic over a grid of formats and all operand pairs (shared with C14.d)')
+    helper_clause(ctx, facts, 'C12.g')
+    ctx.rule('C12.h', 'float conversion shape: signed zero preserved by to_float; exponents never from a floating logarithm')
+    float_paths(ctx, facts)
     ctx.rule('C12.f', 'FPNum.compare: ordering decided on aligned mantissas and signs only; decision table over sign / zero scenarios')
     ordering(ctx, facts)
     ctx.rule('C12.b', 'hp/sp/dp variants of each conversion agree after mapping constants to format roles (NaN payloads excluded)')
@@ -387,7 +438,7 @@ def run(ctx, sm, facts):
     exactness(ctx, facts)
     definite_failures(ctx, facts, sm, 'C12.d', [HELPER], class_filter=lambda n: n in ('FPNum', 'FloatingPointHelper', 'IntegerHelper', 'FixedPoint'))
     ctx.not_decided += ['round-trip over all bit patterns and agreement with the platform encoder (numeric run-time facts)', 'rounding of float -> parts conversions',
-                        'rational exactness of FPNum arithmetic as such (only the no-bit-dropped clause and the shape of compare() are decided)', 'FixedPoint arithmetic']
+                        'rational exactness of FPNum arithmetic as such (only the no-bit-dropped clause and the shape of compare() are decided)']
 
 
 LEVEL_TEXT = ('Static clause-level rules: sibling agreement of the hp/sp/dp conversion variants under format-role normalisation, two\'s-complement helpers '
